@@ -84,6 +84,7 @@ func genCrudOps(r *simrt.RNG, nss []string, client, n int, uniq *int) []CrudOp {
 		case 0:
 			op.Kind = "create"
 			op.Owner = owners[r.Pick([]int{3, 2, 1})]
+			op.Fresh = r.Bool(0.3) // create from a held object (obtained earlier: carries a version, phase, finalizers, labels)
 		case 1:
 			op.Kind = "update"
 			op.Owner = owners[r.Pick([]int{3, 2, 1})]
@@ -496,6 +497,13 @@ func (cl *crudClient) do(ctx context.Context, op CrudOp) {
 		cl.record(crudIn{Op: op, Part: part}, call, o)
 	case "create":
 		r := NewRes(op.NS, op.Type, op.ID, op.Val)
+		// (not through the remote leg, where the creation time is not written back into the caller's object, and only if
+		// the held object's owner does not contradict the requested one: Metadata.SetOwner refuses to change an owner)
+		if h := cl.held[key]; op.Fresh && !cl.remote && h != nil && !resource.IsTombstone(h) && (h.Metadata().Owner() == "" || h.Metadata().Owner() == op.Owner) {
+			r = h.DeepCopy()
+			SpecOf(r).Val = op.Val
+			cl.out.probe("create-from-held")
+		}
 		in := crudIn{Op: op, Part: part, New: SnapOf(r)}
 		*cl.ev++
 		call := *cl.ev
